@@ -19,16 +19,16 @@ Ev == Rec[l]
 \* an observed result matches a specified one ("any": unconstrained by the specification)
 Match(spec, obs) == spec = "any" \/ spec = obs
 
-Fresh == /\ loaded' = None /\ verifier' = "default" /\ jit' = None /\ cl' = None /\ jitH' = FALSE
-         /\ helper' = FALSE /\ calc' = FALSE /\ layout' = "A"
+Fresh == /\ loaded' = None /\ verifier' = "default" /\ jit' = None /\ cl' = None /\ jitH' = None /\ clH' = None
+         /\ helper' = None /\ calc' = None /\ layout' = "A"
 
 TraceNew ==
   /\ l <= N /\ Ev.e = "new"
   /\ IF Ev.arg = "none" THEN Ev.res = "ok" /\ Fresh /\ last' = Obs("new", None, "ok")
      ELSE IF Accepts("default", Ev.arg)
           THEN /\ Ev.res = "ok"
-               /\ loaded' = Ev.arg /\ verifier' = "default" /\ jit' = None /\ cl' = None /\ jitH' = FALSE
-               /\ helper' = FALSE /\ calc' = FALSE /\ layout' = "A"
+               /\ loaded' = Ev.arg /\ verifier' = "default" /\ jit' = None /\ cl' = None /\ jitH' = None /\ clH' = None
+               /\ helper' = None /\ calc' = None /\ layout' = "A"
                /\ last' = Obs("new", Ev.arg, "ok")
           ELSE \* refused: no VM object; the next event must be another "new"
                /\ Ev.res = "err" /\ Fresh /\ last' = Obs("new", Ev.arg, "err")
@@ -40,8 +40,8 @@ TraceCall ==
   /\ l <= N /\ Ev.e = "call" /\ ~NoVm
   /\ CASE Ev.op = "set_program"     -> SetProgram(Ev.arg[1], Ev.arg[2])
        [] Ev.op = "set_verifier"    -> SetVerifier(Ev.arg)
-       [] Ev.op = "register_helper" -> RegisterHelper
-       [] Ev.op = "set_calc"        -> SetCalc
+       [] Ev.op = "register_helper" -> RegisterHelper(Ev.arg)
+       [] Ev.op = "set_calc"        -> SetCalc(Ev.arg)
        [] Ev.op = "jit_compile"     -> JitCompile
        [] Ev.op = "cl_compile"      -> ClCompile
        [] Ev.op = "exec"            -> Exec(Ev.arg)
